@@ -207,6 +207,62 @@ def gen_knn_case(rng, n_ops=60, pokes=False):
     return ops
 
 
+def gen_qcache_case(rng, n_ops=70):
+    """C07 at engine level: a small pool of queries is searched again and again through the CACHEABLE path (no ef
+    override) in two scopes, while documents near those queries are written, overwritten, deleted, bulk-loaded and
+    metadata-updated in between"""
+    dim = rng.choice([2, 3, 8, 33, 40])
+    metric = rng.choice(METRICS)
+    nids = rng.choice([6, 12, 24])
+    ops = ["cfg strat=lru cap=4 hard=%d soft=%d dim=%d metric=%s qcap=%d" % (
+        rng.choice([4, 16, 200]), rng.choice([3, 100]), dim, metric, rng.choice([2, 4, 16]))]
+    ids = list(range(1, nids + 1))
+    queries = []
+    for _ in range(rng.choice([2, 3, 5])):
+        q, _ = knn_vec(rng, dim, metric)
+        if metric != "l2":
+            n = math.sqrt(sum(x * x for x in q)) or 1.0
+            q = [f32round(x / n) for x in q]
+        queries.append(q)
+
+    def near(q):
+        r = rng.choice([1e-3, 0.02, 0.1, 0.4, 1.0])
+        v = [x + rng.gauss(0, r) for x in q]
+        if metric != "l2":
+            n = math.sqrt(sum(x * x for x in v)) or 1.0
+            c = rng.choices(["unit", "band", "far"], [50, 30, 20])[0]
+            t = {"unit": 1.0, "band": math.sqrt(rng.choice([0.985, 0.99, 1.01, 1.015])), "far": rng.choice([0.5, 3.0])}[c]
+            v = [x / n * t for x in v]
+        return [f32round(x) for x in v]
+
+    for i in ids[: max(3, nids // 2)]:
+        ops.append("insert id=%d v=%s m=-" % (i, vbits(near(rng.choice(queries)))))
+    names = ["knn", "insert", "delete", "update", "bulk_load", "flush", "batch_delete"]
+    weights = [45, 30, 8, 4, 3, 6, 2]
+    for _ in range(n_ops):
+        op = rng.choices(names, weights)[0]
+        i = rng.choice(ids)
+        if op == "knn":
+            q = rng.choice(queries)
+            if rng.random() < 0.15:
+                q = [f32round(x * (1 + 1e-6)) for x in q]        # same quantised key, different bits
+            ops.append("knn q=%s k=%d scope=%d" % (vbits(q), rng.choice([1, 2, 3, 3, 5]), rng.choice([0, 0, 1])))
+        elif op == "insert":
+            ops.append("insert id=%d v=%s m=-" % (i, vbits(near(rng.choice(queries)))))
+        elif op == "delete":
+            ops.append("delete id=%d" % i)
+        elif op == "batch_delete":
+            ops.append("batch_delete ids=%s" % show_vec([rng.choice(ids) for _ in range(2)]))
+        elif op == "update":
+            ops.append("update id=%d m=%s merge=0" % (i, show_meta(rand_meta(rng))))
+        elif op == "bulk_load":
+            ops.append("bulk_load docs=%d;%s;-" % (i, vbits(near(rng.choice(queries)))))
+        else:
+            ops.append("flush force=1")
+    ops.append("census")
+    return ops
+
+
 def _vec_of(bits):
     return [bits_f32(int(b)) for b in bits.split(",")] if bits not in ("-", "") else []
 
@@ -288,7 +344,7 @@ def compare(impl, model):
     same path, same sequence of distance keys, same documents strictly inside the last key"""
     from . import corr
     a, b = corr.strip_amb(impl), corr.strip_amb(model)
-    if a == b:
+    if a == b or b == "unpredicted":
         return True
     if " res=" in a and " res=" in b and a.split(" res=")[0] == b.split(" res=")[0]:
         x, y = _knn_items(a), _knn_items(b)
@@ -303,6 +359,61 @@ def compare(impl, model):
 
 from . import corr as _corr
 _corr.COMPARERS["tiered"] = compare
+
+
+def qcache_oracle(i, f, r, exp, metric, st):
+    """C07 on a cacheable search: a CacheHit must be (a prefix of) a result stored earlier for the same scope with
+    k' >= k, every document in it must exist now with the distance of its CURRENT vector to that stored query, and no
+    document written since the store may lie strictly inside the stored result's distance boundary."""
+    fails = []
+    if not r.startswith("ok "):
+        return fails
+    k = int(f["k"]); scope = f.get("scope", "0")
+    qn = _vec_of(f["qn"])
+    items = _knn_items(r)
+    path = r.split("path=")[1].split(" ")[0]
+    hotset = set() if f.get("hotset", "-") == "-" else {int(x) for x in f["hotset"].split(",")}
+    if path != "CacheHit":
+        if items:
+            st["stores"].append({"at": i, "scope": scope, "qn": qn, "k": max(k, len(items)), "items": items})
+        return fails
+    srcs = [s_ for s_ in st["stores"] if s_["k"] >= k and s_["items"][:k] == items]
+    same = [s_ for s_ in srcs if s_["scope"] == scope]
+    if not same:
+        if srcs:
+            fails.append(("c07-foreign-scope", i, "CacheHit in scope %s serves a result stored only under scope %s" % (scope, srcs[-1]["scope"])))
+        elif any(s_["items"][:len(items)] == items and s_["k"] < k for s_ in st["stores"]):
+            fails.append(("c07-wider-k", i, "CacheHit for k=%d serves an entry computed for a smaller k" % k))
+        else:
+            # results pruned of deleted documents are re-searched, not served; anything else is unexplained
+            fails.append(("c07-unexplained-hit", i, "CacheHit result %s is not a prefix of any result the engine stored" % (items[:3],)))
+        return fails
+    src = same[-1]
+    qs = src["qn"]
+    worst = max(bits_f32(c[2]) for c in src["items"])
+    full = len(src["items"]) >= src["k"]
+    for id_, _, bits in items:
+        if id_ not in exp:
+            fails.append(("c07-deleted-served", i, "CacheHit contains document %d, deleted since the entry was stored" % id_)); continue
+        d = bits_f32(bits)
+        t1, t2 = knn_reference(metric, qs, _vec_of(exp[id_][0]))
+        if min(abs(d - t1), abs(d - t2)) > 5e-4 * (1 + abs(t1)) + (0.025 if metric != "l2" else 0):
+            fails.append(("c07-pre-overwrite-distance", i, "CacheHit reports document %d at %.6g; its current vector is at %.6g from the cached query" % (id_, d, t1)))
+    served = {c[0] for c in src["items"]}
+    for id_, (vb_, _m) in exp.items():
+        if id_ in served or st["written_at"].get(id_, -1) <= src["at"]:
+            continue
+        t1, t2 = knn_reference(metric, qs, _vec_of(vb_))
+        cosd, ipd = (t1, t2) if metric == "cos" else (t2, t1)
+        fresh = t1 if metric == "l2" else (cosd if id_ in hotset else ipd)      # what a fresh search reports for it now
+        if not full or fresh < worst - 5e-4 * (1 + abs(worst)):
+            kind = "c07-omits-closer-write"
+            if metric != "l2" and not (min(cosd, ipd) < worst - 5e-4 * (1 + abs(worst)) and max(cosd, ipd) < worst - 5e-4 * (1 + abs(worst))):
+                kind = "c07-omits-closer-write-band"      # inside only under one of the two tier formulas (2% band)
+            fails.append((kind, i, "CacheHit (entry stored at op %d, boundary %.6g, %d/%d results) omits document %d written at op %d, "
+                          "which a fresh search reports at %.6g" % (src["at"], worst, len(src["items"]), src["k"], id_, st["written_at"][id_], fresh)))
+            break
+    return fails
 
 
 def fields(line):
@@ -334,6 +445,7 @@ def oracle(raw_ops, ann, res):
     poked_hot = {}      # id -> (vec, meta) for plants the engine may later "repair" from
     hot_keys = []
     stale_mirror = set()     # ids whose hot mirror may legitimately be stale (planted, or overwritten past the hot tier)
+    qst = {"stores": [], "written_at": {}}     # C07: results the engine stored in its query cache, last write op per id
     poke_hot_seen = False
     last_write_op = None
     nums = {}
@@ -348,7 +460,12 @@ def oracle(raw_ops, ann, res):
             continue
         if op == "knn":
             fails += knn_oracle(i, f, r, exp, metric, stale_mirror)
+            if f.get("ef") == "-":
+                fails += qcache_oracle(i, f, r, exp, metric, qst)
             continue
+        if op in ("insert", "bulk_load"):
+            for id_w in ([int(f["id"])] if op == "insert" else [int(rec.split(";")[0]) for rec in f.get("docs", "-").split("/") if rec != "-"]):
+                qst["written_at"][id_w] = i
         if op == "bulk_load" and f.get("docs", "-") != "-":
             stale_mirror |= {int(rec.split(";")[0]) for rec in f["docs"].split("/")}
         if op == "poke_hot":
